@@ -148,15 +148,15 @@ func TryNewAnyDataProvider(val any) (DataProvider, error) {
 
 		switch valTyp.Kind() { // TODO: add more types
 		case reflect.String:
-			return NewSafeMapDataProvider(x.Interface().(map[string]string)), nil
+			return tryNewMapDataProvider[string](x)
 		case reflect.Int:
-			return NewSafeMapDataProvider(x.Interface().(map[string]int)), nil
+			return tryNewMapDataProvider[int](x)
 		case reflect.Float64:
-			return NewSafeMapDataProvider(x.Interface().(map[string]float64)), nil
+			return tryNewMapDataProvider[float64](x)
 		case reflect.Bool:
-			return NewSafeMapDataProvider(x.Interface().(map[string]bool)), nil
+			return tryNewMapDataProvider[bool](x)
 		case reflect.Interface:
-			return NewSafeMapDataProvider(x.Interface().(map[string]any)), nil
+			return tryNewMapDataProvider[any](x)
 		default:
 			return &EmptyDataProvider{Underlying: val}, fmt.Errorf("could not convert map[string]%s to a data provider", valTyp.String())
 		}
@@ -173,4 +173,14 @@ func TryNewAnyDataProvider(val any) (DataProvider, error) {
 	default:
 		return &EmptyDataProvider{Underlying: val}, fmt.Errorf("could not convert type %s to a data provider. unsupported type", x.Kind().String())
 	}
+}
+
+// converts a map value (possibly of a named type, e.g. `type M map[string]any`) into a map[string]T data provider.
+// Returns an error instead of panicking if the map cannot be converted (e.g. named key or element types)
+func tryNewMapDataProvider[T any](x reflect.Value) (DataProvider, error) {
+	target := reflect.TypeOf(map[string]T(nil))
+	if !x.Type().ConvertibleTo(target) {
+		return &EmptyDataProvider{Underlying: x.Interface()}, fmt.Errorf("could not convert %s to a data provider", x.Type().String())
+	}
+	return NewSafeMapDataProvider(x.Convert(target).Interface().(map[string]T)), nil
 }
